@@ -630,4 +630,11 @@ theorem optimize_preserves (n : Nat) (st : St) (e : Sx) (r : Sx × St) (h : eval
     eval n st e = .ok r ∧ eval n st (optimize e) = .ok r :=
   ⟨evalF_sub n st e r h, (claim_all n).1 st e r h⟩
 
+/-- the evaluation the theorem speaks about, from a top-level form: macro expansion, then the restricted evaluator on
+the expanded form (no optimisation, no static resolution) — used by the driver to report how many correspondence
+cases fall under `optimize_preserves` -/
+def walEvalF (n : Nat) (st : St) (e : Sx) : Res := do
+  let (ex, st1) ← expand (eval n) (some 0) n st e
+  evalF n st1 ex
+
 end Wal.Opt
